@@ -40,6 +40,9 @@ func (n rnode) String() string {
 	case "tnilS", "tnilC", "tnilA", "pleaf":
 		return n.T
 	case "C":
+		if n.Deco != 0 {
+			p += fmt.Sprintf("~%d", n.Deco)
+		}
 		if n.Ex != nil {
 			return "C" + p + "{" + n.Ex.String() + "}"
 		}
@@ -180,6 +183,10 @@ func (n rnode) build(path string, depth, mmode int, beh ...int) any {
 		if n.Paren {
 			c.SetParen(true)
 		}
+		if n.Deco != 0 {
+			// a presentation closure of its own: how the Condition prints, not whether it is parenthetical
+			c.SetPresentationPolicy(func(...any) string { return "presented" })
+		}
 		switch n.Frozen {
 		case 1:
 			c.SetReadOnly(true)
@@ -247,14 +254,14 @@ func takeSnap(v any) snap {
 		return snap{T: "nil"}
 	}
 	if s, ok := refAsStack(v); ok && s.IsInit() {
-		sn := snap{T: "S", Kind: trueKind(s), Paren: s.IsParen()}
+		sn := snap{T: "S", Kind: trueKind(s), Paren: rawParen(s, s.IsParen())}
 		for _, e := range contents(s) {
 			sn.Kids = append(sn.Kids, takeSnap(e))
 		}
 		return sn
 	}
 	if c, ok := refAsCond(v); ok && c.IsInit() {
-		sn := snap{T: "C", Kw: c.Keyword(), Paren: c.IsParen()}
+		sn := snap{T: "C", Kw: c.Keyword(), Paren: rawParen(c, c.IsParen())}
 		if op := c.Operator(); op != nil {
 			sn.Op = op.String()
 		}
@@ -263,6 +270,18 @@ func takeSnap(v any) snap {
 		return sn
 	}
 	return snap{T: "leaf", Val: fmt.Sprintf("%T:%v", v, v)}
+}
+
+// rawParen reads the parenthetical flag from the raw record (option bit 1) rather than from IsParen: the
+// flag is what "parenthetical" means in the statement, and a getter that answers differently for some
+// kind or some policy (round 14: BASIC stacks, Conditions with a presentation closure) must not take the
+// reference along. Instances the dump cannot read fall back to the getter.
+func rawParen(x any, getter bool) bool {
+	d := stackage.VerifDump(x)
+	if d == nil || d.Nil || !d.CfgOK {
+		return getter
+	}
+	return d.Opt&1 != 0
 }
 
 // c20Expected is the structure the description denotes (what build must have produced).
@@ -845,6 +864,20 @@ func c20Trees(c *Ctx) []rnode {
 				ww.Kids = []rnode{w}
 				trees = append(trees, rnode{T: "S", K: "AND", Kids: []rnode{ww, {T: "leaf"}}})
 			}
+		}
+	}
+	// round 14: BASIC stacks (which never print parentheses but carry the flag all the same) as wrappers and
+	// as only children, and Conditions with a presentation closure (parenthetical or not) as only children
+	for _, par := range []bool{false, true} {
+		for _, kids := range [][]rnode{{{T: "leaf"}}, {{T: "leaf"}, {T: "leaf"}}, {{T: "C"}}, {{T: "S", K: "AND", Kids: []rnode{{T: "leaf"}, {T: "leaf"}}}}, {{T: "S", K: "BASIC", Kids: []rnode{{T: "leaf"}}}}, {{T: "S", K: "BASIC", Paren: true, Kids: []rnode{{T: "leaf"}, {T: "leaf"}}}}} {
+			b := rnode{T: "S", K: "BASIC", Paren: par, Kids: kids}
+			trees = append(trees, rnode{T: "S", K: "AND", Kids: []rnode{b}}, rnode{T: "S", K: "OR", Kids: []rnode{{T: "leaf"}, b}}, rnode{T: "S", K: "AND", Kids: []rnode{{T: "S", K: "OR", Kids: []rnode{b}}, {T: "leaf"}}},
+				rnode{T: "S", K: "BASIC", Kids: []rnode{{T: "S", K: "AND", Kids: []rnode{b}}}}, rnode{T: "S", K: "LIST", Kids: []rnode{{T: "C", Ex: &b}, {T: "S", K: "AND", Paren: true, Kids: []rnode{b}}}})
+		}
+		for _, ex := range []*rnode{nil, {T: "S", K: "AND", Kids: []rnode{{T: "S", K: "OR", Kids: []rnode{{T: "leaf"}, {T: "leaf"}}}}}} {
+			pc := rnode{T: "C", Paren: par, Deco: 1, Ex: ex}
+			trees = append(trees, rnode{T: "S", K: "AND", Kids: []rnode{{T: "S", K: "OR", Kids: []rnode{pc}}, {T: "leaf"}}}, rnode{T: "S", K: "OR", Kids: []rnode{{T: "S", K: "AND", Kids: []rnode{pc}}}},
+				rnode{T: "S", K: "AND", Kids: []rnode{{T: "S", K: "LIST", Kids: []rnode{{T: "S", K: "OR", Kids: []rnode{pc}}}}, pc}}, rnode{T: "S", K: "AND", Kids: []rnode{{T: "S", K: "BASIC", Kids: []rnode{pc}}, {T: "S", K: "NOT", Kids: []rnode{pc}}}})
 		}
 	}
 	return trees
